@@ -154,6 +154,7 @@ def check_config(ctx, F, tag):
                    "the argument reaches no unguarded arithmetic or unwrap: %s" % (alarms or "ok"))
             ctx.count("bitvector-query-entries" + tag)
     ctx.floor("bitvector-query-entries" + tag, 6)
+    c09.check_returned_arguments(ctx, F, tag, "C01.R5.returned-argument-bounded", lambda fn: fn.startswith("<bit_vector::BitVector as ops::"))
     # R6: RankSupport::new scans the words of the vector: the word count it clamps its per-block loop with is the number of words
     # of a vector of parent.len() bits. Reported only for the two classic wrong counts (`len / 64 + 1`, `len / 64`); rounding-up
     # forms (bits_to_words, div_round_up, (len + 63) / 64, the length of the word array) are accepted, others left undecided-silent.
@@ -170,6 +171,12 @@ def check_config(ctx, F, tag):
                 floor_div = lambda t: core(t)[0] == "bin" and core(t)[1] in ("Div", "Shr") and is_len(core(t)[2]) and core(core(t)[3])[0] == "const" and core(core(t)[3])[1] in (64, 6)
                 if floor_div(a) or (a[0] == "bin" and a[1] == "Add" and ((floor_div(a[2]) and core(a[3])[:2] == ("const", 1)) or (floor_div(a[3]) and core(a[2])[:2] == ("const", 1)))):
                     wrong.append((tstr(a)[:60], loc(st["sp"])))
+                else:
+                    # any other spelling: compared with bits_to_words(len) over the residues of len (A13); only a refutation counts
+                    import residues
+                    r_, why = residues.agrees(F, a, is_len, lambda N: residues.call("bits::bits_to_words", N))
+                    if r_ is False:
+                        wrong.append((tstr(a)[:60] + " -- " + why, loc(st["sp"])))
     ctx.ob("C01.R6.rank-support-word-count", rb.name + tag, loc(rb.raw["span"]), not wrong, "term-shape",
            "%d `words - block * WORDS_PER_BLOCK` clamps; word count that is a truncating division of the bit length (+1): %s" % (nsub, wrong), nontrivial=False)
     # R7/R8 (borrowed): the in-word select both select paths end in (C17.R3, this configuration's arm), and the enable_* guards --
@@ -186,6 +193,10 @@ def check_config(ctx, F, tag):
     rl = Relabel(ctx, {"C08.R1.unsafe-site-discharged": ("C01.R9.unchecked-query-contract", lambda k: k.startswith(("<bit_vector::", "bit_vector::")))})
     c08.check_width_fields(rl, F, tag)
     c08.ledger(rl, F, tag)
+    # (borrowed) "built from B by any public route (raw vector ..)": From<RawVector> counts set bits over whole words, so the cached
+    # count is the number of set bits of B only while the bits past the end of the raw vector are zero (C05.R1)
+    import c05
+    c05.check_tail_invariant(Relabel(ctx, {"C05.R1.tail-cleared-after-trigger": "C01.R3.raw-vector-tail-cleared"}), F, tag)
     co = F.body("<bit_vector::BitVector as ops::BitVec<'a>>::count_ones")
     ctx.ob("C01.R3.count-ones-is-cached-field", co.name + tag, loc(co.raw["span"]), self_path(co.term_of_local(0)) == ["ones"], "term-shape", "count_ones() = %s" % tstr(co.term_of_local(0)), nontrivial=False)
     ln = F.body("<bit_vector::BitVector as ops::BitVec<'a>>::len")
